@@ -137,6 +137,9 @@ def self_member_lit(prog, l):
     if l[0] != "is" or l[1][0] != "call":
         return None
     name = l[1][1]
+    if name.endswith("::contains") and l[2] is True and len(l[1][2]) == 2 and any(x[0] == "field" and x[2] == "RaftCore.id" for x in walk(l[1][2][1])):
+        # coll.contains(&self.id): one of several collections tested in turn (`a.contains(..) || b.contains(..)`)
+        return l[1][2][0]
     if name.endswith("::all") and l[2] is False:
         want = "Ne"
     elif name.endswith("::any") and l[2] is True:
